@@ -225,6 +225,73 @@ def gen_frame_equalsize(rng, tier, L):
     return {"prefs": p, "dk": "n", "dict": b"", "X": data, "script": script, "kind": "equalsize", "data": "equalsize",
             "srcmode": rng.choice(SRC_MODES), "nullprefs": False, "period": None}
 
+# ---- one cctx reused over several frames with every transition of (level class, dictionary kind, block mode)
+REUSE_SYMS = [(lc, dk) for lc in "HF" for dk in "ndc"]       # H: level >= LZ4HC_CLEVEL_MIN (lz4hc context), F: fast
+
+def reuse_cycle():
+    """a cyclic sequence over REUSE_SYMS in which every ordered pair (incl. repeats) occurs exactly once (Eulerian circuit)"""
+    n = len(REUSE_SYMS)
+    nxt = [0] * n
+    stack, out = [0], []
+    while stack:
+        v = stack[-1]
+        if nxt[v] < n:
+            w = (v + 1 + nxt[v]) % n
+            nxt[v] += 1
+            stack.append(w)
+        else:
+            out.append(stack.pop())
+    return out[::-1][:-1]            # n*n symbols
+REUSE_CYCLE = reuse_cycle()
+
+def drift_from(rng, base, n):
+    """n bytes: base repeated, ~0.5% of the bytes changed"""
+    out = bytearray((base * (n // len(base) + 1))[:n])
+    for _ in range(n // 200 + 1):
+        if n:
+            out[rng.randrange(n)] = rng.randrange(256)
+    return bytes(out)
+
+def gen_reuse_session(rng, tier, idx):
+    """4 frames for one cctx.  Frame j has a theme (a short random pattern); its dictionary is drawn from its own theme,
+    its input alternates between its own theme and the PREVIOUS frame's theme: a context that still refers to anything
+    of the previous session (its CDict, its loaded dictionary, its hash tables) finds matches there, which the decoder,
+    given only this frame's dictionary, cannot resolve."""
+    nsym = len(REUSE_CYCLE)
+    start = (3 * idx) % nsym
+    syms = [REUSE_SYMS[REUSE_CYCLE[(start + j) % nsym]] for j in range(4)]
+    npass = idx // (nsym // 3)                   # 12 sessions walk the whole cycle; the next 12 repeat it with the block modes flipped
+    frames = []
+    prev_base = None
+    for j, (lc, dk) in enumerate(syms):
+        p = gen_prefs(rng, tier, {"bsid": rng.choice([0, 4]), "level": rng.choice([2, 3, 4, 6, 9, 10, 12] if lc == "H" else [-3, -1, 0, 1]),
+                                  "blockMode": (j + idx + npass) & 1})
+        base = rng.randbytes(rng.choice([300, 1000, 4096]))
+        dlen = rng.choice([4096, 20000, 65536, 65536]) if dk != "n" else 0
+        if dk == "d" and p["blockMode"] == 0:
+            dlen = 65536            # a full window loaded into the stream at Begin: the case in which a mis-initialised stream matters most
+        # dictionary = incompressible front part (fills every hash table it is digested into) ++ theme part (what the input matches)
+        m = min(dlen, max(2048, dlen // 8))
+        dic = rng.randbytes(dlen - m) + drift_from(rng, base, m)
+        n = rng.choice([20000, 50000, 90000])
+        X = bytearray()
+        turn = 0
+        while len(X) < n:
+            b = base if (turn % 2 == 0 or prev_base is None) else prev_base
+            X += drift_from(rng, b, rng.randrange(500, 3000))
+            turn += 1
+        X = bytes(X[:n])
+        indep = p["blockMode"] == 1
+        script = split_script(rng, rng.choice(["flushes", "random", "indep", "smallsteps", "kblocks"]), n, 65536, indep, p["autoFlush"])
+        total = sum(sz for o, sz in script)
+        X = X[:total]
+        p["contentSize"] = total if rng.random() < 0.3 else 0
+        frames.append({"prefs": p, "dk": dk, "dict": dic, "X": X, "script": script, "kind": "reuse", "data": "themes",
+                       "srcmode": rng.choice(SRC_MODES), "nullprefs": False, "period": None,
+                       "unfinished": j < 3 and rng.random() < 0.25, "sym": lc + dk + ("i" if indep else "l")})
+        prev_base = base
+    return frames
+
 def gen_frame(rng, tier, big=False):
     """one streaming frame: prefs, dictionary kind, op script with data"""
     p = gen_prefs(rng, tier)
@@ -485,7 +552,7 @@ def run_frame(st, cs, fr, res, tier):
     off = 0
     buffered = 0
     okall = True
-    script = list(fr["script"]) + [("e", 0)]
+    script = list(fr["script"]) + ([] if fr.get("unfinished") else [("e", 0)])
     for opi, (o, sz) in enumerate(script):
         if o in ("u", "n"):
             data = X[off:off + sz]
@@ -550,6 +617,8 @@ def run_frame(st, cs, fr, res, tier):
             if not (is_end and code == 14 and declared and declared != len(X)):
                 fail("prop_fail", "call %d (%s,%d) of a legal session fails with %s" % (opi, o, sz, L.F_getErrorName(ret).decode()))
             return None, X, okall, blocks
+    if fr.get("unfinished"):
+        return None, X, okall, blocks       # abandoned before compressEnd: the next compressBegin on this cctx starts afresh
     if eff["contentSize"] and eff["contentSize"] != len(X):
         fail("prop_fail", "compressEnd succeeds although the declared content size %d differs from the %d bytes given" % (eff["contentSize"], len(X)))
     return b"".join(outs), X, okall, blocks
@@ -807,6 +876,31 @@ def run_session_case(st, case, which):
                         "srcmode": fr["srcmode"], "kind": fr["kind"]})
                 if rng.random() < 0.3:
                     stray_ops(st, cs, rng, res, fr["prefs"])
+        elif kind == "reuse":
+            frames = gen_reuse_session(rng, tier, case["idx"])
+            release = case["idx"] % 2 == 1          # LZ4F_freeCDict as soon as the frame that used it is over (legal)
+            prev = None
+            for fr in frames:
+                if prev:
+                    res["stats"]["trans_%s>%s" % (prev, fr["sym"])] += 1
+                prev = fr["sym"]
+                res["stats"]["kind_reuse"] += 1
+                F, X, ok, blocks = run_frame(st, cs, fr, res, tier)
+                if fr["dk"] == "c" and release and cs.cdict:
+                    L.F_freeCDict(cs.cdict); cs.cdict = None
+                if F is None:
+                    if res["fails"]:
+                        break
+                    res["stats"]["frames_unfinished"] += 1
+                    continue
+                res["stats"]["frames"] += 1
+                res["stats"]["bytes_in"] += len(X)
+                res["keys"].add(frame_key(fr, len(blocks)))
+                direct(st, rng, which, fr["prefs"], fr["dict"], F, X, blocks, res, tier,
+                       {"prefs": pstr(fr["prefs"]), "dk": fr["dk"], "dictlen": len(fr["dict"]), "script": fr["script"][:60],
+                        "srcmode": fr["srcmode"], "kind": "reuse", "history": [f["sym"] + ("*" if f["unfinished"] else "") for f in frames]})
+                if res["fails"]:
+                    break
         elif kind == "oneshot":
             for _ in range(case.get("count", 4)):
                 oneshot(st, cs, rng, res, which, tier)
